@@ -43,6 +43,8 @@ def build():
     repo = Repo()
     reg = Registry()
     reg.repo = repo    # contracts that are generated from the class table (e.g. one unit per slot class)
+    lfile = os.path.join(ROOT, "baseline_locals.json")
+    reg.baseline_locals = json.load(open(lfile)) if os.path.exists(lfile) and not os.environ.get("VERIF_NO_RENAME") else {}
     call.register(reg)
     ex = Executor(repo, reg)
     call.install(ex)
@@ -286,6 +288,14 @@ def main():
         baseline_all[prop] = sorted(k for k, ok in keys_seen.items() if ok)
         with open(bfile, "w") as f:
             json.dump(baseline_all, f, indent=0, sort_keys=True)
+        # binding order of the locals of every function under contract on the unchanged tree (see Executor.verify: renamed locals)
+        lfile = os.path.join(ROOT, "baseline_locals.json")
+        lall = json.load(open(lfile)) if os.path.exists(lfile) else {}
+        for r in results:
+            if not r["error"] and r["info"].get("local_order") is not None:
+                lall[r["unit"]] = r["info"]["local_order"]
+        with open(lfile, "w") as f:
+            json.dump(lall, f, indent=0, sort_keys=True)
     wall = time.time() - t_start
     level = call.LEVEL.get(prop, "proof")
     explain = call.EXPLAIN.get(prop, "")
